@@ -9,15 +9,24 @@ Decided here (machine-checked, over the regenerated `Gen.Values`):
   integers   every 64-bit integer is read back (C09_int_roundtrip); larger ones are rejected, not wrapped
   kinds      which SQL type is inferred for which Python value (C09_infer_order, C09_infer_spec), which
              literal kind is emitted (C09_lit_kind), that typed columns are CAST (C09_cast_present)
+  trees      the type inferred for a whole first-row value (nested lists / Rows / dicts): for every value tree
+             that shows a type at every inference position it is PySpark's type, every Row field included, and
+             it never depends on the VALUE of a scalar, only on its class (C09_infer_tree,
+             C09_infer_struct_names, C09_infer_falsy_free)
+  instants   an aware datetime denotes the same instant before and after, a naive one the same wall-clock
+             reading, in every (fixed-offset) session zone; of the three ways `_lit` could treat an aware
+             datetime exactly `replace(tzinfo=utc)` is wrong (C09_ts_roundtrip, C09_ts_modes, C09_ts_instant)
   names      the column names the five schema forms give (C09_auto_names, C09_schema_forms)
   rows       how dict rows are laid out (C09_dict_rows)
   scalars    None / bool / int / str cells round-trip at the literal level (C09_partial)
-NOT decided, not claimed: that a float, date, timestamp or bytes value survives — its lexical form is
-produced by sqlglot / Python `repr`/`isoformat`/`hex` and read back by the engine's parser; the model
-treats such a literal as an opaque token of the right kind.  Those values are run through the real
+NOT decided, not claimed: that a float, date or bytes value survives, and the calendar arithmetic of timestamps —
+the lexical form is produced by sqlglot / Python `repr`/`isoformat`/`hex` and read back by the engine's parser;
+the model treats such a literal as an opaque token of the right kind (for timestamps: a wall-clock reading in
+microseconds plus an offset).  Those values are run through the real
 code by the correspondence stream only.
 -/
 import SqlframeModel.Lemmas.C09
+import SqlframeModel.Lemmas.C09Infer
 import SqlframeModel.Impl.C09Scope
 namespace Sqlframe
 open Gen C09
@@ -174,18 +183,26 @@ theorem C09_lit_kind (k : PyKind) (hk : k ≠ .tuple) (h : H_infLiteral k) : typ
 
 /-- a value INSIDE a list / Row / dict, or used as the Python operand of a Column operator, does not pass
     through `functions.lit` but through `Column._lit`: that path, too, emits a literal of the value's own
-    type (infinity excepted: H_infLiteral).  A special case that lives in `lit` only — e.g. the NaN cast —
-    breaks this. -/
-theorem C09_nested_lit_kind (k : PyKind) (hk : k ≠ .tuple) (hinf : k ≠ .floatInf) :
+    type (an infinity: as long as `_lit` has a case for it, H_infOperand).  A special case that lives in `lit`
+    only — e.g. the NaN cast — breaks this. -/
+theorem C09_nested_lit_kind (k : PyKind) (hk : k ≠ .tuple) (hinf : H_infOperand k) :
     typedRight k (columnLit k) = true := by
-  cases k <;> first | exact absurd rfl hk | exact absurd rfl hinf | decide
+  rcases hinf with h | h
+  · cases k <;> first | exact absurd rfl hk | exact h | decide
+  · cases k <;> first | exact absurd rfl hk | exact absurd rfl h | decide
 
 /-- why H_infLiteral is a hypothesis: `lit(float('inf'))` is the *string* 'inf' -/
 theorem C09_cex_infLiteral (h : litInfIsString = true) : litOf .floatInf = .string ∧ typedRight .floatInf (litOf .floatInf) = false := by
   constructor <;> simp [litOf, h] <;> decide
 
-/-- a Python infinity used as a bare operand (`col('f') < float('inf')`) goes to `exp.convert`: the word `inf` -/
-theorem C09_operand_inf : operandLit .floatInf = .number := by decide
+/-- a Python infinity used as a bare operand (`col('f') < float('inf')`) or nested in a cell is a typed DOUBLE
+    literal (not the bare word `inf`, which the engine would read as a column name): H_infOperand holds of every kind -/
+theorem C09_operand_inf : typedRight .floatInf (operandLit .floatInf) = true ∧ ∀ k, H_infOperand k := by
+  refine ⟨by decide, fun k => Or.inl (by decide)⟩
+
+/-- the texts written for the two infinities are read by the engine as +inf and -inf respectively -/
+theorem C09_inf_texts : infLitTexts.map (fun p => (readInfText p.1, readInfText p.2)) = some (some false, some true) := by
+  decide
 
 /-- a finite float comes back as a Python float -/
 theorem C09_float_back (decimalTyped direct : Bool) (h : H_listFloat decimalTyped direct) :
@@ -213,6 +230,221 @@ example : H_nanWidth false := Or.inr rfl
 /-- a column whose type is known (declared or inferred) is CAST to it -/
 theorem C09_cast_present (typed : Bool) (h : typed = true) : columnHasCast typed = true := by
   subst h; decide
+
+-- ================================================================================================
+-- type inference on whole values
+-- ================================================================================================
+
+theorem C09.branch_seq (k : PyKind) (h : k.isSeq = true) : branchOf k = some .arrayOf := by
+  cases k <;> first | (simp [PyKind.isSeq] at h; done) | decide
+
+theorem C09.scalar_infer (su : StructUntyped) (k : PyKind) (f : Bool) (t : String) (hk : k.isScalar = true)
+    (h : specType k = some t) : (inferTyW su false (.scalar k f)).map STy.family = some (.prim t) := by
+  cases k <;> simp [PyKind.isScalar] at hk <;> simp [specType] at h <;> subst h <;> cases f <;> cases su <;> rfl
+
+mutual
+/-- every value tree that shows a type at every position the inference looks at (`specTy v = some t`: no None,
+    no empty container on the first-element spine, every Row field typed): `get_default_data_type` without a
+    truthiness guard gives PySpark's type — at every depth, with every Row field, whatever the scalar values are
+    (0, '', False, …) and whichever way a Row field of unknown type would be treated -/
+theorem C09.infer_treeW (su : StructUntyped) :
+    ∀ (v : PyVal) (t : STy), specTy v = some t → (inferTyW su false v).map STy.family = some t
+  | .scalar k f, t, h => by
+    simp only [specTy] at h
+    by_cases hk : k.isScalar = true
+    · simp only [hk, if_true] at h
+      cases hs : specType k with
+      | none => rw [hs] at h; simp at h
+      | some t' =>
+        rw [hs] at h; simp at h; subst h
+        exact C09.scalar_infer su k f t' hk hs
+    · rw [if_neg hk] at h; cases h
+  | .seq k es, t, h => by
+    unfold specTy at h
+    by_cases hk : k.isSeq = true
+    · simp only [hk, if_true] at h
+      cases es with
+      | nil => simp at h
+      | cons e es =>
+        simp only at h
+        cases he : specTy e with
+        | none => rw [he] at h; simp at h
+        | some te =>
+          rw [he] at h; simp at h; subst h
+          have ih := C09.infer_treeW su e te he
+          simp only [inferTyW, Bool.false_and, C09.branch_seq k hk]
+          cases hi : inferTyW su false e with
+          | none => rw [hi] at ih; simp at ih
+          | some ti => rw [hi] at ih; simp at ih; simp [STy.family, ih]
+    · rw [if_neg hk] at h; cases h
+  | .row ns vs, t, h => by
+    simp only [specTy] at h
+    by_cases hl : ns.length = vs.length
+    · simp only [hl, if_true] at h
+      cases ha : allSome (specTys vs) with
+      | none => rw [ha] at h; simp at h
+      | some ts =>
+        rw [ha] at h; simp at h; subst h
+        obtain ⟨us, hu, hfam⟩ := C09.infer_treesW su vs ts ha
+        have hb : branchOf .row = some .structOf := by decide
+        have hlen : ns.length = us.length := by
+          have h1 := allSome_length _ _ ha
+          rw [specTys_length] at h1
+          have h2 := families_length us
+          rw [hfam] at h2
+          omega
+        unfold inferTyW
+        simp only [Bool.false_and, hb, hu, keepTyped_all su ns us hlen]
+        simp [STy.family, hfam]
+    · rw [if_neg hl] at h; cases h
+  | .dict ks vs, t, h => by
+    unfold specTy at h
+    cases ks with
+    | nil => simp at h
+    | cons k ks =>
+      cases vs with
+      | nil => simp at h
+      | cons v vs =>
+        simp only at h
+        cases hk : specTy k with
+        | none => rw [hk] at h; simp at h
+        | some tk =>
+          cases hv : specTy v with
+          | none => rw [hk, hv] at h; simp at h
+          | some tv =>
+            rw [hk, hv] at h; simp at h; subst h
+            have ih1 := C09.infer_treeW su k tk hk
+            have ih2 := C09.infer_treeW su v tv hv
+            have hb : branchOf .dict = some .mapOf := by decide
+            simp only [inferTyW, Bool.false_and, hb]
+            cases h1 : inferTyW su false k with
+            | none => rw [h1] at ih1; simp at ih1
+            | some a =>
+              cases h2 : inferTyW su false v with
+              | none => rw [h2] at ih2; simp at ih2
+              | some b =>
+                rw [h1] at ih1; rw [h2] at ih2
+                simp at ih1 ih2
+                simp [STy.family, ih1, ih2]
+theorem C09.infer_treesW (su : StructUntyped) : ∀ (vs : List PyVal) (ts : List STy), allSome (specTys vs) = some ts →
+    ∃ us, inferTysW su false vs = us.map some ∧ STy.families us = ts
+  | [], ts, h => by
+    simp [specTys, allSome] at h
+    exact ⟨[], by simp [inferTysW], by simp [STy.families, h]⟩
+  | v :: vs, ts, h => by
+    simp only [specTys] at h
+    obtain ⟨t, rest, h1, h2, h3⟩ := allSome_cons_some h
+    obtain ⟨us, hu, hfam⟩ := C09.infer_treesW su vs rest h2
+    have ih := C09.infer_treeW su v t h1
+    cases hi : inferTyW su false v with
+    | none => rw [hi] at ih; simp at ih
+    | some u =>
+      rw [hi] at ih; simp at ih
+      exact ⟨u :: us, by simp [inferTysW, hi, hu], by simp [STy.families, ih, hfam, h3]⟩
+end
+
+/-- … and that is what the source does: it has no truthiness guard in front of the chain -/
+theorem C09_infer_tree (v : PyVal) (t : STy) (h : specTy v = some t) : (inferTy v).map STy.family = some t := by
+  have hf : inferFalsyFirst = false := by decide
+  unfold inferTy
+  rw [hf]
+  exact C09.infer_treeW _ v t h
+
+/-- why the guard must not be there: with a leading `if not value: return None` the integer 0, the float 0.0, False,
+    '' and b'' get no type, and a Row loses its zero field -/
+theorem C09_cex_falsyGuard :
+    inferTyW .skip true (.scalar .int true) = none ∧ inferTyW .skip true (.scalar .floatFinite true) = none ∧
+    (inferTyW .skip true (.row ["n", "s"] [.scalar .int true, .scalar .str false])).map STy.text = some "struct<s: string>" := by
+  decide
+
+def C09.structNames : Option STy → Option (List String)
+  | some (.struct ns _) => some ns
+  | _ => none
+
+/-- the struct type a Row is CAST to names every field of the Row (so the CAST removes none) -/
+theorem C09_infer_struct_names (ns : List String) (vs : List PyVal) (h : H_firstRowTyped (.row ns vs)) :
+    structNames (inferTy (.row ns vs)) = some ns := by
+  unfold H_firstRowTyped at h
+  cases hs : specTy (.row ns vs) with
+  | none => rw [hs] at h; simp at h
+  | some t =>
+    have ht := C09_infer_tree _ t hs
+    simp only [specTy] at hs
+    by_cases hl : ns.length = vs.length
+    · simp only [hl, if_true] at hs
+      cases ha : allSome (specTys vs) with
+      | none => rw [ha] at hs; simp at hs
+      | some ts =>
+        rw [ha] at hs; simp at hs; subst hs
+        cases hi : inferTy (.row ns vs) with
+        | none => rw [hi] at ht; simp at ht
+        | some u =>
+          rw [hi] at ht; simp at ht
+          cases u <;> simp [STy.family] at ht
+          simp [structNames, ht.1]
+    · rw [if_neg hl] at hs; cases hs
+
+/-- the inferred type of a scalar depends on its class only, never on its value: 0, 0.0, False, '' and b'' are
+    typed like every other int, float, bool, str, bytes -/
+theorem C09_infer_falsy_free (k : PyKind) (f g : Bool) : inferTy (.scalar k f) = inferTy (.scalar k g) := by
+  have hf : inferFalsyFirst = false := by decide
+  simp [inferTy, inferTyW, hf]
+
+/-- why H_firstRowTyped is a hypothesis: `Row(n=None, s='x')` in the first row is typed `struct<s: string>` (the
+    CAST then removes `n` from every row), and a list that starts with None gets no type at all -/
+theorem C09_cex_firstRowTyped (h : inferStructUntyped = .skip) :
+    (inferTy (.row ["n", "s"] [.scalar .none false, .scalar .str false])).map STy.text = some "struct<s: string>" ∧
+    (inferTy (.seq .list [.scalar .none false, .scalar .int false])).map STy.text = none := by
+  have hf : inferFalsyFirst = false := by decide
+  unfold inferTy
+  rw [h, hf]
+  decide
+
+example : H_firstRowTyped (.row ["w", "ks"] [.scalar .floatFinite true, .seq .list [.scalar .int true, .scalar .none false]]) := by
+  decide
+
+example : (inferTy (.row ["w", "ks"] [.scalar .floatFinite true, .seq .list [.scalar .int true]])).map STy.text
+    = some "struct<w: double, ks: array<bigint>>" := by decide
+
+-- ================================================================================================
+-- timestamps: which instant
+-- ================================================================================================
+
+/-- of the three things `_lit` can do to an aware datetime before writing it, `astimezone(utc)` and nothing at
+    all keep the instant in every session zone and for every datetime; `replace(tzinfo=utc)` does not -/
+theorem C09_ts_modes (m : TzMode) :
+    (∀ (z : Int) (v : PyTs), tsBackWith m z v = some (specTsBack z v)) ↔ m ≠ .relabel := by
+  constructor
+  · intro h e
+    subst e
+    have := h 0 ⟨0, some 1⟩
+    revert this
+    decide
+  · intro hm z v
+    obtain ⟨w, o⟩ := v
+    cases o with
+    | none => simp [tsBackWith, litTsWith, engineRead, specTsBack, litNaiveTy]
+    | some o =>
+      cases m with
+      | relabel => exact absurd rfl hm
+      | keep => simp [tsBackWith, litTsWith, engineRead, specTsBack, litAwareTy, toValueStripsTz]
+      | convert => simp [tsBackWith, litTsWith, engineRead, specTsBack, litAwareTy, toValueStripsTz]
+
+/-- every datetime, naive or aware with any offset, in every session zone: what `collect()` hands back is what
+    PySpark hands back (the same instant read in the session zone / the same wall-clock reading) -/
+theorem C09_ts_roundtrip (z : Int) (v : PyTs) : tsBack z v = some (specTsBack z v) :=
+  (C09_ts_modes litAwareMode).mpr (by decide) z v
+
+/-- the literal of an aware datetime denotes its instant `wall - off`, whatever the session zone -/
+theorem C09_ts_instant (z w o : Int) : engineRead z (litTs ⟨w, some o⟩) = .instant (w - o) := by
+  simp [litTs, litTsWith, litAwareMode, engineRead, litAwareTy]
+
+/-- the literal of a naive datetime is a TIMESTAMP with its own fields, whatever the session zone -/
+theorem C09_ts_naive (z w : Int) : engineRead z (litTs ⟨w, none⟩) = .naive w := by
+  simp [litTs, litTsWith, engineRead, litNaiveTy]
+
+-- 2020-01-02 03:04:05+05:00 is 2020-01-01 22:04:05 UTC (microseconds since the epoch)
+example : tsBack 0 ⟨1577934245000000, some 18000000000⟩ = some 1577916245000000 := by decide
 
 -- ================================================================================================
 -- column names
@@ -374,6 +606,8 @@ def C09_full_statement : Prop :=
   (∀ (v : Scalar) (ty : ColTy), v.fits ty → (∀ i, v = .int i → inInt64 i) → readAs ty v.text = some v) ∧
   (∀ k : PyKind, k ≠ .tuple → typedRight k (litOf k) = true) ∧
   (∀ k : PyKind, (inferType k).map tyFamily = specType k) ∧
+  (∀ (ns : List String) (vs : List PyVal), ns.length = vs.length → structNames (inferTy (.row ns vs)) = some ns) ∧
+  (∀ (z : Int) (v : PyTs), tsBack z v = some (specTsBack z v)) ∧
   (∀ form shape, derivedNames form shape = some (specNames form shape)) ∧
   (∀ (cols : List String) (row : List (String × Int)), (row.map (·.1)).Nodup → dictRowCells cols row = specDictRowCells cols row)
 
